@@ -20,7 +20,7 @@ func TestC03(t *testing.T) {
 		"every certificate received by the model Agglayer is judged: exit tree arithmetic with reference hashes, field-by-field equality with the world's events of the block range named by its metadata; " +
 		"signature = (previous certificate state, tick kind, outcome) and walk classes (#certificates, limiter)")
 	r.Assume("the certificate observed is the one received by the model Agglayer (client boundary)")
-	alphabet := []int{stL2Events, stL2Events, stL2Events, stL2Empty, stEpoch, stStatus, stSettle, stSettle, stInError, stL1Advance, stAdvance}
+	alphabet := []int{stL2Events, stL2Events, stL2Events, stL2Empty, stEpoch, stStatus, stSettle, stSettle, stInError, stL1Advance, stAdvance, stL2Reorg, stFailBefore}
 	cfgs := []asNodeCfg{{RetryAfterInError: true}, {RetryAfterInError: true, MaxCertSize: 3000}, {RetryAfterInError: false, MaxCertSize: 9000}, {RetryAfterInError: false},
 		{RetryAfterInError: true, FEP: true}, {RetryAfterInError: false, FEP: true, MaxCertSize: 9000}}
 	n := r.N(120, 4000)
